@@ -339,16 +339,18 @@ mutual
           (s2.setReg .operand (.operand .all)).device
             (if k == .set then Vm.State.doColor else Vm.State.doPower)
         | r => r
-      | .setDefault =>
-        match s.device fun vm => Vm.execInstr default vm .wait with
+      | .setDefault w =>
+        match (if w then s.device fun vm => Vm.execInstr default vm .wait else ((.normal, s) : Outcome × S)) with
         | (.normal, s2) => (s2.setReg .operand (.operand .default)).device Vm.State.doColor
         | r => r
-      | .action k ops =>
+      | .action k w ops =>
         let s1 := match k with
           | .on => s.setReg .power (.bool true)
           | .off => s.setReg .power (.bool false)
           | .set => s
-        match s1.device fun vm => Vm.execInstr default vm .wait with
+        -- `w`: the command waits for its turn on the time line; inside a matrix block
+        -- (`w = false`) it does not, the block as a whole has waited
+        match (if w then s1.device fun vm => Vm.execInstr default vm .wait else ((.normal, s1) : Outcome × S)) with
         | (.normal, s2) => execOperands f k ops s2
         | r => r
       | .get name =>
@@ -573,7 +575,7 @@ mutual
     | .cons (.ite _ t (some e)) rest => collect t ++ collect e ++ collect rest
     | .cons (.ite _ t none) rest => collect t ++ collect rest
     | .cons (.repeat_ _ body) rest => collect body ++ collect rest
-    | .cons (.action _ ops) rest => collectOps ops ++ collect rest
+    | .cons (.action _ _ ops) rest => collectOps ops ++ collect rest
     | .cons _ rest => collect rest
   def collectOps : Operands → List (String × Routine)
     | .nil => []
